@@ -626,12 +626,59 @@ def plan(tier, seed):
     return shards
 
 
+def run_fork_case(fn, acc):
+    """The program forks after its first samples (a daemon detaching, multiprocessing's fork start method): the child carries
+    the history on - for a device that stays present nothing decreases and nothing is forgotten across fork()."""
+    import json
+    w = World()
+    nf = NET_FIELDS if fn == "net" else DISK_FIELDS
+    key = "eth0" if fn == "net" else "sda"
+    s1, s2, s3 = ({key: mk_row(m, 0, nf, fn)} for m in (9, 2, 5))      # up, wrapped, up again
+    viols = []
+    with w.vk:
+        w.clear_all()
+        model = Model()
+        for sn in (s1, s2):
+            psutil_call(w, fn, sn, True, True)
+            model.call(fn, sn, True)
+        want = {k_: list(v_) for k_, v_ in model.call(fn, s3, True).items()}
+        r, wr = os.pipe()
+        pid = os.fork()
+        if pid == 0:
+            try:
+                os.close(r)
+                got = psutil_call(w, fn, s3, True, True)
+                os.write(wr, json.dumps({k_: list(v_) for k_, v_ in got.items()}).encode())
+            except BaseException as e:  # noqa: BLE001
+                os.write(wr, json.dumps({"error": repr(e)}).encode())
+            finally:
+                os._exit(0)
+        os.close(wr)
+        data = b""
+        while True:
+            chunk = os.read(r, 65536)
+            if not chunk:
+                break
+            data += chunk
+        os.close(r)
+        os.waitpid(pid, 0)
+        w.clear_all()
+    got = json.loads(data or b'{"error": "no answer from the child"}')
+    acc.count("fork_cases")
+    if got != want:
+        viols.append(("history_lost_across_fork", f"{fn}: after up, wrap, fork the child's next call -> {got} want {want}"))
+    acc.case(dict(kind="fork", fn=fn), True, viols)
+
+
 def run_shard(shard):
     acc = harness.Acc(max_samples=2)
     setup()
     k = shard["kind"]
     seen = set()
     if k == "enum":
+        if shard["part"] == 0:
+            for fn in ("net", "disk"):
+                run_fork_case(fn, acc)
         for i, h in enumerate(enum_histories(shard["length"])):
             if i % shard["parts"] == shard["part"]:
                 run_history(h, acc)
